@@ -543,7 +543,15 @@ func runSolver(ctx context.Context, solver, file string, timeoutS int) SolverRes
 	_ = cmd.Run()
 	secs := time.Since(t0).Seconds()
 	o := out.String()
-	first := strings.TrimSpace(strings.SplitN(o, "\n", 2)[0])
+	first := ""
+	for _, l := range strings.Split(o, "\n") {
+		l = strings.TrimSpace(l)
+		if l == "" || strings.HasPrefix(l, "WARNING") || strings.HasPrefix(l, "(warning") {
+			continue
+		}
+		first = l
+		break
+	}
 	st := "error"
 	switch {
 	case first == "unsat":
